@@ -668,8 +668,37 @@ def model_specs(draw, profile=None):
                 g.labels.add("instr:coverage")
         spec["instr"] = ins
         g.labels.add("has:programs")
+    # ---- optional second population type (cross-type interaction and aggregation) ---------------------------------
+    extra_pops = []
+    if g.coin(p.get("p_second_type", 0.0)):
+        spec["pop_types"] = ["hum", "vec"]
+        for c in spec["comps"]:
+            c["type"] = "hum"
+        for x in characs:
+            x["type"] = "hum"
+        for d in pars.values():
+            d["type"] = "hum"
+        for w in spec["inter"]:
+            w["from"], w["to"] = "hum", "hum"
+        spec["comps"] += [{"name": "v0", "kind": "ord", "db": True, "type": "vec"}, {"name": "v1", "kind": "ord", "db": True, "type": "vec"}]
+        vpops = ["qa", "qb"][: draw(st.integers(1, 2))]
+        extra_pops = [{"name": q, "type": "vec"} for q in vpops]
+        pars["kv0"] = {"name": "kv0", "fmt": "rate", "ts": None, "fn": None, "db": True, "min": None, "max": None, "tgt": False, "timed": False, "deriv": False, "type": "vec"}
+        pars["kv1"] = {"name": "kv1", "fmt": g.pick(["rate", "probability"]), "ts": None, "fn": None, "db": True, "min": None, "max": None, "tgt": False, "timed": False, "deriv": False, "type": "vec"}
+        links[("v0", "v1")] = ["kv0"]
+        links[("v1", "v0")] = ["kv1"]
+        spec["inter"].append({"name": "w1", "from": "hum", "to": "vec"})
+        q = g.pick(comp_names[:2] + [n for n, d in list(pars.items())[:2] if d.get("type") == "hum" and not (d.get("fn") or "").startswith(("SRC_", "TGT_"))])
+        args = [q, "w1"] + ([g.pick(comp_names[:1])] if g.coin(0.4) else [])
+        pars["kv1"]["fn"] = "%s(%s)" % (g.pick(["SRC_POP_AVG", "SRC_POP_SUM"]), ", ".join(args))
+        pars["kv1"]["db"] = False
+        for c in ("v0", "v1"):
+            data["q"][c] = {q_: {"t": [start], "v": [g.val_size()]} for q_ in vpops}
+        data["q"]["kv0"] = {q_: g.series("rate", years) for q_ in vpops}
+        data["iw"]["w1"] = {"%s>%s" % (a, b): {"a": g.pick([0.0, 1.0, 0.5, 2.0])} for a in pops for b in vpops if g.coin(0.8)}
+        g.labels.add("second-population-type")
     spec["data"] = data
-    spec["pops"] = pops
+    spec["pops"] = pops + extra_pops
     spec["pars"] = [{k: v for k, v in d.items() if not k.startswith("_")} for d in pars.values()]
     spec["links"] = [[a, b, v] for (a, b), v in links.items() if v]
     g.labels.add("pops:%d" % n_pops)
